@@ -14,6 +14,13 @@ pub mod shims {
     }
     impl<V> HashMap<String, V> {
         #[verifier::external_body]
+        pub fn get(&self, k: &String) -> (r: Option<&V>)
+            ensures match r { Some(v) => self@.dom().contains(k@) && *v == self@[k@], None => !self@.dom().contains(k@) } { unimplemented!() }
+        // M.iter_mut() / M.iter() / M.values() in a `for` loop (rule T-ITER): the values, each once
+        #[verifier::external_body]
+        pub fn values_vec(&self) -> (r: Vec<&V>)
+            ensures forall|i: int| 0 <= i < r@.len() ==> exists|k: Seq<char>| self@.dom().contains(k) && *#[trigger] r@[i] == self@[k] { unimplemented!() }
+        #[verifier::external_body]
         pub fn insert(&mut self, k: String, v: V) -> (r: Option<V>) ensures final(self)@ == old(self)@.insert(k@, v) { unimplemented!() }
         #[verifier::external_body]
         pub fn contains_key(&self, k: &String) -> (r: bool) ensures r == self@.dom().contains(k@) { unimplemented!() }
@@ -58,8 +65,42 @@ pub mod shims {
         pub fn add_endpoint_name(&mut self, n: &str) ensures final(self).endpoints@ == old(self).endpoints@.insert(n@), final(self).x == old(self).x { unimplemented!() }
     }
     pub struct Endpoint { pub name: String, pub cmdline_roots: Ghost<Seq<&'static str>>, pub x: Ghost<int> }
-    pub struct Arc<T> { pub v: T }
+    // Arc<RwLock<T>>: a handle on a shared object.  `cell` says which object: a clone of a handle points to the same one, a
+    // handle made by Arc::new points to an object of its own (nothing is known about its cell)
+    pub struct Arc<T> { pub v: T, pub cell: Ghost<int> }
     pub struct RwLock<T> { pub v: T }
+    impl<T> Arc<T> {
+        #[verifier::external_body]
+        pub fn new(v: T) -> (r: Arc<T>) ensures r.v == v { unimplemented!() }
+    }
+    impl<T> Clone for Arc<T> { #[verifier::external_body] fn clone(&self) -> (r: Self) ensures r == *self { unimplemented!() } }
+    impl<T> RwLock<T> {
+        #[verifier::external_body]
+        pub fn new(v: T) -> (r: RwLock<T>) ensures r.v == v { unimplemented!() }
+    }
+    impl<T> Arc<RwLock<T>> {
+        // handle.read().await / handle.write().await (T-ASYNC): access to the shared object
+        #[verifier::external_body]
+        pub fn read(&self) -> (r: &T) ensures *r == self.v.v { unimplemented!() }
+    }
+    impl Clone for Endpoint { #[verifier::external_body] fn clone(&self) -> (r: Self) ensures r == *self { unimplemented!() } }
+    impl Clone for Account { #[verifier::external_body] fn clone(&self) -> (r: Self) ensures r == *self { unimplemented!() } }
+    // futures::stream::FuturesUnordered, with the tasks run to completion by T-ASYNC: a bag of finished task results
+    pub struct FuturesUnordered<F> { pub v: Ghost<Seq<F>> }
+    impl<F> FuturesUnordered<F> {
+        #[verifier::external_body]
+        pub fn new() -> (r: Self) ensures r.v@.len() == 0 { unimplemented!() }
+        #[verifier::external_body]
+        pub fn push(&mut self, f: F) ensures final(self).v@ == old(self).v@.push(f) { unimplemented!() }
+        #[verifier::external_body]
+        pub fn is_empty(&self) -> (r: bool) ensures r == (self.v@.len() == 0) { unimplemented!() }
+        // the next task to finish: one of those in the bag, which leaves it
+        #[verifier::external_body]
+        pub fn next(&mut self) -> (r: Option<F>)
+            ensures match r {
+                Some(t) => exists|i: int| 0 <= i < old(self).v@.len() && old(self).v@[i] == t && final(self).v@ == old(self).v@.remove(i),
+                None => old(self).v@.len() == 0 && final(self).v@ == old(self).v@ } { unimplemented!() }
+    }
     pub type AccountSync = Arc<RwLock<Account>>;
     pub type EndpointSync = Arc<RwLock<Endpoint>>;
     // M.iter().map(|(k, v)| (k.to_owned(), Arc::new(RwLock::new(v.to_owned())))).collect()   (rule T-ITER): same keys, each value wrapped
